@@ -78,7 +78,8 @@ def run_tlc(module, cfg=None, *, cwd=SPECS, workers=4, env=None, timeout=600, xm
             metadir=None, coverage=False, xss=None):
     """Run TLC on `module`(.tla in cwd) with config `cfg`. Returns TlcResult."""
     os.makedirs(WORK, exist_ok=True)
-    md = metadir or os.path.join(WORK, "tlc-meta", "%s-%d-%d" % (module, os.getpid(), int(time.time() * 1000) % 10**9))
+    md = metadir or os.path.join(WORK, "tlc-meta", "%s-%d-%d-%s" % (
+        os.path.basename(module), os.getpid(), int(time.time() * 1000) % 10**9, os.urandom(4).hex()))
     os.makedirs(md, exist_ok=True)
     jvm = ["java", "-XX:+UseParallelGC", "-Xmx" + xmx, "-DTLA-Library=" + SPECS]
     if xss:
